@@ -22,7 +22,7 @@ import (
 // crash is attributed to the request it was serving, and a new worker starts.
 
 // ids whose exclusion matters inside child processes
-var allKnownIDs = []string{kfF2, kfF4, kfF16, kfF17, kfF18, kfF19, kfF20, kfF21, kfF22, kfF23, kfF24, kfF25}
+var allKnownIDs = []string{kfF2, kfF4, kfF16, kfF17, kfF17b, kfF18, kfF19, kfF20, kfF21, kfF22, kfF23, kfF24, kfF25}
 
 // isExcluded: vk.Excluded in the parent; in a child process (which runs no
 // probes) the list handed over by the parent. Exclusions applied inside a child
@@ -206,6 +206,9 @@ func runChild(mode string, args map[string]string) childResult {
 				w.cmd.Wait()
 				theWork = nil
 				res.died = true
+				if p := os.Getenv("C16_DEBUG_WORKER_STDERR"); p != "" {
+					os.WriteFile(p, []byte(w.errb.String()), 0o644)
+				}
 				res.crash = crashExcerpt(w.errb.String() + "\n" + strings.Join(seen, "\n"))
 				if res.crash == "" {
 					res.crash = "worker exited: " + lastBytes(w.errb.String(), 600)
